@@ -360,7 +360,7 @@ var strPool = []string{`"a"`, `"b"`, `"ab"`, `""`, `"hello"`, `"x y"`, `"k1"`, `
 func (g *pgen) strLit() string { return strPool[g.pick(len(strPool))] }
 
 func (g *pgen) smallIdx() string {
-	return []string{"0", "1", "2", "-1", "-2", "5", "9", "-9"}[g.pick(8)]
+	return []string{"0", "1", "2", "3", "-1", "-2", "-3", "-4", "5", "9", "-9"}[g.pick(11)]
 }
 
 func (g *pgen) sliceIdx() string {
